@@ -134,6 +134,7 @@ type AzObj struct {
 	Content   ref.Authz // content of the current round
 	Evaluated bool
 	Rounds    int
+	Unknown   bool // content loaded from bytes that are not a known snapshot
 }
 
 // ---- records
@@ -372,7 +373,7 @@ func (m *VM) RefKey(ks *KeySel, id *uint32) ed25519.PublicKey {
 	return nil
 }
 
-func addAuthz(a biscuit.Authorizer, c *ref.Authz, perm []int) {
+func addAuthz(a biscuit.Authorizer, c *ref.Authz, perm []int, permChecks bool) {
 	if c == nil {
 		return
 	}
@@ -392,11 +393,32 @@ func addAuthz(a biscuit.Authorizer, c *ref.Authz, perm []int) {
 		items = append(items, item{2, i})
 	}
 	if len(perm) == len(items) {
-		n := make([]item, len(items))
-		for i, p := range perm {
-			n[i] = items[p]
+		ok := true
+		seen := make([]bool, len(items))
+		for _, p := range perm {
+			if p < 0 || p >= len(items) || seen[p] {
+				ok = false
+				break
+			}
+			seen[p] = true
 		}
-		items = n
+		if ok {
+			n := make([]item, len(items))
+			for i, p := range perm {
+				n[i] = items[p]
+			}
+			items = n
+			if !permChecks {
+				// checks keep their relative order (check indexes identify checks in results)
+				next := 0
+				for i := range items {
+					if items[i].kind == 2 {
+						items[i].idx = next
+						next++
+					}
+				}
+			}
+		}
 	}
 	for _, it := range items {
 		switch it.kind {
